@@ -87,6 +87,7 @@ func (x *Exec) intrinsic(fr *Frame, st *State, ins ssa.Instruction, cc *ssa.Call
 		s2.reach = tTrue
 		vals := x.inlineRun(fr, s2, fn, clo, []Term{bv}, ins.Pos())
 		body, pats := vc.closeBinder(vals[0])
+		x.flushAxioms()
 		// integer-typed bound variables range over their Go type
 		var guard Term = tTrue
 		if b, ok := underlying(p.Type()).(*types.Basic); ok && b.Info()&types.IsInteger != 0 {
